@@ -631,6 +631,8 @@ class RepoInterp:
             other = it.iterate(args[0], st)
             if other is not None:
                 return K(not any(x in fval.v for x in (st.freeze(o_) for o_ in other)))
+        if fname == "vars" and len(args) == 1 and not kwargs and isinstance(call.func, ast.Name) and call.args:
+            return it.eval(ast.Attribute(value=call.args[0], attr="__dict__", ctx=ast.Load()), st)  # vars(x) is x.__dict__
         if fname in ("cast", "typing.cast") and len(args) == 2 and not kwargs:
             return args[1]  # typing.cast is the identity on its second argument
         if fname == "object" and not args and not kwargs and isinstance(call.func, ast.Name):
@@ -1323,10 +1325,10 @@ class _OracleInterp(Interp):
             for part in e.values:
                 if isinstance(part, ast.Constant):
                     out += str(part.value)
-                elif isinstance(part, ast.FormattedValue) and part.format_spec is None and part.conversion == -1:
+                elif isinstance(part, ast.FormattedValue) and part.format_spec is None and part.conversion in (-1, 115, 114):
                     v = self.eval(part.value, st)
                     if isinstance(v, K) and isinstance(v.v, (str, int)) and not isinstance(v.v, bool):
-                        out += str(v.v)
+                        out += repr(v.v) if part.conversion == 114 else str(v.v)  # !r / !s / none
                     else:
                         return U("f-string with a non-constant part")
                 else:
